@@ -4,6 +4,7 @@
 -/
 import Driver.Sexp
 import BorshModel.Spec
+import BorshModel.SchemaOf
 open Borsh Driver
 
 def strict? : Sx → Option Bool
@@ -14,6 +15,41 @@ def strict? : Sx → Option Bool
 def bytes? : Sx → Option Bytes
   | .atom a => parseHex a
   | _ => none
+
+def showValErr : ValErr → String
+  | .zstSequence d => "(zstSequence " ++ hexOf d ++ ")"
+  | .tagTooWide d => "(tagTooWide " ++ hexOf d ++ ")"
+  | .tagTooNarrow d => "(tagTooNarrow " ++ hexOf d ++ ")"
+  | .tagNotPowerOfTwo d => "(tagNotPowerOfTwo " ++ hexOf d ++ ")"
+  | .missing d => "(missing " ++ hexOf d ++ ")"
+  | .emptyLengthRange d => "(emptyLengthRange " ++ hexOf d ++ ")"
+
+def showValidate : Res ValErr Unit → String
+  | .ok () => "ok"
+  | .error e => showValErr e
+  | .panic p => "panic:" ++ showPanic p
+
+def showMax : MaxRes → String
+  | .ok n => "(ok " ++ toString n ++ ")"
+  | .error .overflow => "overflow"
+  | .error .recursive => "recursive"
+  | .error (.missing d) => "(missing " ++ hexOf d ++ ")"
+  | .panic p => "panic:" ++ showPanic p
+
+def showAnalyses (c : Container) : String :=
+  "validate=" ++ showValidate c.validate ++ " max=" ++ showMax c.maxSerializedSize
+
+/-- the specification's verdict on the implementation's `max_serialized_size` observation -/
+def checkMaxAgainstSpec (c : Container) (implMax : String) : String :=
+  match c.specMax with
+  | .fin n =>
+    if n < usizeLimit then
+      (if implMax == "ok_" ++ toString n then "ok" else "SPEC: true maximum is " ++ toString n)
+    else (if implMax == "overflow" then "ok" else "SPEC: true maximum " ++ toString n ++ " exceeds the address space")
+  | .unbounded =>
+    if implMax.startsWith "ok_" then "SPEC: unbounded (reachable cycle) but a bound was reported" else "ok"
+  | .missing d =>
+    if implMax.startsWith "ok_" then "SPEC: definition " ++ hexOf d ++ " is missing but a bound was reported" else "ok"
 
 def runCase (xs : List Sx) : String :=
   match xs with
@@ -58,6 +94,47 @@ def runCase (xs : List Sx) : String :=
         (fun r => "(" ++ " ".intercalate (r.1.map showVal) ++ ") rest=" ++ toString r.2.length)
         (deserializeMany st ts bs)
     | _, _, _ => "bad-case parse"
+  | [.atom "cont", st, b] =>
+    match strict? st, bytes? b with
+    | some st, some bs =>
+      match fromSlice st containerTy bs with
+      | .ok v =>
+        match containerOfVal v with
+        | some c => "ok " ++ showAnalyses c
+        | none => "bad-case container-shape"
+      | .err e => showErr e
+      | .panic p => "panic " ++ showPanic p
+    | _, _ => "bad-case parse"
+  | [.atom "contchk", st, b, .atom implMax] =>
+    match strict? st, bytes? b with
+    | some st, some bs =>
+      match fromSlice st containerTy bs with
+      | .ok v =>
+        match containerOfVal v with
+        | some c => checkMaxAgainstSpec c implMax
+        | none => "bad-case container-shape"
+      | _ => "ok"
+    | _, _ => "bad-case parse"
+  | [.atom "withschema", st, t, u, v] =>
+    match strict? st, ty? t, ty? u, val? v with
+    | some st, some t, some u, some v =>
+      if !HasTy t v then "bad-case ill-typed" else
+      match tryToVecWithSchema t v with
+      | .ok bs => showOut showVal (tryFromSliceWithSchema st u bs)
+      | .err e => "enc" ++ showErr e
+      | .panic p => "encpanic " ++ showPanic p
+    | _, _, _, _ => "bad-case parse"
+  | [.atom "schema", t] =>
+    match ty? t with
+    | some t =>
+      match schemaOf t with
+      | .ok c =>
+        match toVec containerTy (containerToVal c) with
+        | .ok bs => "ok cont=" ++ hexOf bs ++ " " ++ showAnalyses c
+        | _ => "bad-case container-encode"
+      | .error _ => "bad-case"
+      | .panic p => "panic " ++ showPanic p
+    | none => "bad-case parse"
   | _ => "bad-case op"
 
 partial def loop (h : IO.FS.Stream) (out : IO.FS.Stream) : IO Unit := do
